@@ -9,8 +9,8 @@
    key has 4 bytes, payload_length = len(payload) < 2^63.  wf_frame f adds the library's default
    "an unmasked frame carries the zero key".  client_frame f : wf_frame f, masked, and a Text payload
    is valid UTF-8 (what a client may send and the endpoint must receive). *)
-From Model Require Import Base WsFrame.
-From Proofs Require Import WsFrameP WsStreamP C18P.
+From Model Require Import Base Utf8 WsFrame WsFactory.
+From Proofs Require Import WsFrameP WsStreamP C18P WsFactoryP.
 Import ListNotations.
 Open Scope Z_scope.
 
@@ -126,6 +126,36 @@ Theorem C18_fuel_never_exhausted : forall chunks st,
 Proof. exact C18_fuel_never_exhausted_proof. Qed.
 Print Assumptions C18_fuel_never_exhausted.
 
+(* 10. the PUBLIC CONSTRUCTORS (Model/WsFactory.v: WebSocketFrame.Ping / Pong / Binary / Close / Text, any
+       argument): whatever they return is a well-formed final unmasked frame whose length field is the
+       number of payload BYTES, so it is written exactly as RFC 6455 prescribes and parses back to itself *)
+Theorem C18_factories_wellformed : forall f,
+  built_by_factory f -> len (f_payload f) < 2 ^ 63 ->
+  wf_frame f /\ f_fin f = 1 /\ f_mask f = 0 /\ f_plen f = len (f_payload f).
+Proof. exact C18_factories_wellformed_proof. Qed.
+Print Assumptions C18_factories_wellformed.
+
+Theorem C18_factories_roundtrip : forall f rest,
+  built_by_factory f -> len (f_payload f) < 2 ^ 63 ->
+  encode_frame f = Ok (rfc_encode f) /\ parse_frame (rfc_encode f ++ rest) = (Ok f, rest).
+Proof. exact C18_factories_roundtrip_proof. Qed.
+Print Assumptions C18_factories_roundtrip.
+
+(* 11. Text(s) exists for every str without lone surrogates; its payload is the UTF-8 encoding of s (it
+       decodes back to s) and payload_length counts bytes, not characters; handler.send(s) puts exactly
+       the RFC encoding of that frame on the wire *)
+Theorem C18_text_factory : forall s,
+  Forall (fun c => cp_ok c = true /\ is_surrogate c = false) s ->
+  exists f, ws_text s = Ok f /\ f_opcode f = OpText /\ utf8_decode (f_payload f) = Some s /\
+            f_plen f = len (f_payload f).
+Proof. exact C18_text_factory_full_proof. Qed.
+Print Assumptions C18_text_factory.
+
+Theorem C18_send_is_rfc : forall s b, ws_send s = Ok b ->
+  exists f, ws_text s = Ok f /\ (len (f_payload f) < 2 ^ 63 -> b = rfc_encode f).
+Proof. exact C18_send_is_rfc_proof. Qed.
+Print Assumptions C18_send_is_rfc.
+
 (* ---------- non-vacuity ---------- *)
 Definition mkf (op : opcode) (mask : Z) (key payload : list byte) : frame :=
   {| f_fin := 1; f_rsv1 := 0; f_rsv2 := 0; f_rsv3 := 0; f_opcode := op; f_mask := mask; f_key := key;
@@ -194,3 +224,14 @@ Example C18_malformed_same_outcome :
   snd (ws_call {| w_buf := []; w_closed := false |} s) =
     {| o_delivered := [(OpBinary, [byte_of_Z 97])]; o_written := []; o_error := Some EOther |}.
 Proof. vm_compute. split; reflexivity. Qed.
+
+(* the factories: 42 euro signs are 126 BYTES (16-bit length form, not the 7-bit form with 42);
+   Close() is Close(200, b"OK") *)
+Example C18_text_counts_bytes :
+  match ws_text (repeat 0x20AC 42) with
+  | Ok f => f_plen f = 126 /\ hdr 4 (encode_frame f) = [129; 126; 0; 126]
+  | Err _ => False
+  end.
+Proof. vm_compute. split; reflexivity. Qed.
+Example C18_close_default : ws_close 200 [byte_of_Z 79; byte_of_Z 75] = Ok close_frame.
+Proof. vm_compute. reflexivity. Qed.
